@@ -31,7 +31,11 @@ W_NOPROV_TREE = ("root", "list", 0, (("P", "list", 1, (("x", "leaf", 1, (), None
 # pickle identity: the same structured value from a fresh call and from a duplicate
 _V = ("t2", "val", ("L", (("L", (("F", "/nonexistent/rv_a"),)), "x")), (), None)
 W_PICKLE = ("n6", "list", 0, (_V, ("g6", "tagc", (("tags", (("n", 1),)),), (_V,), None)), None)
-FIXED = [("failed-twin", W_TWIN), ("tags-twice", W_TAGS), ("tags-twice-task", W_TAGS2), ("noprov-twin", W_NOPROV_TWIN),
+# the same call twice under ONE parent through two different expressions (a and a-via-ident), the first still pending
+# when the second becomes ready (schedule twin_first_pending): both must stay in the parent's child list
+W_SAMEPARENT = ("root", "list", 0, (_A, ("a", "leaf", 7, (), {"via": True}), ("b", "leaf", 5, (), None),
+                                    ("a", "leaf", 7, (), {"via": True, "tags": (("n", 1),)})), None)
+FIXED = [("same-parent-twin", W_SAMEPARENT), ("failed-twin", W_TWIN), ("tags-twice", W_TAGS), ("tags-twice-task", W_TAGS2), ("noprov-twin", W_NOPROV_TWIN),
          ("noprov-tree", W_NOPROV_TREE), ("pickle", W_PICKLE)]
 
 
@@ -59,16 +63,60 @@ def probe_tags_dedupe() -> bool:
             pass
 
 
-def one_db(specs, rng, workdir, keep=False):
+def twin_first_pending(held):
+    """Schedule for the same-parent-twin witness: finish ident(...) jobs first, the twinned call 'a' last, so that
+    the second call of 'a' becomes ready while the first is still pending (it is then collapsed into it)."""
+    def rank(job):
+        if job.task.name == "ident":
+            return 0
+        try:
+            return 2 if job.args[0][0][0] == "a" else 1
+        except Exception:
+            return 1
+    return min(range(len(held)), key=lambda i: rank(held[i]))
+
+
+CHOOSERS = {"same-parent-twin": twin_first_pending}
+_TEMPLATE = {}
+
+
+def fresh_db(path):
+    """An empty migrated database (migrated once per process, then copied)."""
+    if "path" not in _TEMPLATE or not os.path.exists(_TEMPLATE["path"]):
+        import logging
+        from redun.backends.db import RedunBackendDb
+        d = tempfile.mkdtemp(prefix="rv_c20_tmpl_")
+        p = os.path.join(d, "t.db")
+        lg = logging.getLogger("rv_c20_null")
+        lg.addHandler(logging.NullHandler())
+        lg.propagate = False
+        b = RedunBackendDb(db_uri=f"sqlite:///{p}", logger=lg)
+        b.load()
+        b.session.close()
+        b.engine.dispose()
+        _TEMPLATE["path"], _TEMPLATE["dir"] = p, d
+    shutil.copyfile(_TEMPLATE["path"], path)
+
+
+def drop_template():
+    if "dir" in _TEMPLATE:
+        shutil.rmtree(_TEMPLATE["dir"], ignore_errors=True)
+        _TEMPLATE.clear()
+
+
+def one_db(specs, rng, workdir, keep=False, kind=None):
     """Executions of specs[0], specs[1], ... on one fresh sqlite file. Returns (runs, dump, registry)."""
     d = tempfile.mkdtemp(prefix="c20_", dir=workdir)
     cwd = os.getcwd()
     os.chdir(d)
     try:
         db = os.path.join(d, "r.db")
+        fresh_db(db)
         runs = []
         for k, sp in enumerate(specs):
-            runs.append(L.run20(sp, rng, db, tags=[("run", k + 1)], complete_prob=rng.choice([0.1, 0.3, 0.7])))
+            kw = dict(complete_prob=0.0, chooser=CHOOSERS[kind]) if kind in CHOOSERS else \
+                dict(complete_prob=rng.choice([0.1, 0.3, 0.7]))
+            runs.append(L.run20(sp, rng, db, tags=[("run", k + 1)], **kw))
         dump = L.dump_db(db)
         reg = runs[-1]["scheduler"].type_registry
         return runs, dump, reg
@@ -97,11 +145,11 @@ class Check(PropertyCheck):
         "completed recordings only: transient database errors and interrupted recordings are C22",
         "NOT proved in Coq: record_value / subvalues (value key = hash of the deserialised value) and argument rows; both are decided on the implementation by the oracle",
     ]
-    rule = ("structured random programs over harness/progs/vm_c20.py (twins under several parents, failing leaves, catch/seq, "
+    rule = ("structured random programs over harness/progs/vm_c20.py (twins under several parents and under ONE parent through different expressions (argument computed by ident()), failing leaves, catch/seq, "
             "cache_scope NONE/CSE, prov=False calls and subtrees, shallow-validity tasks, contexts, apply_tags on values / call "
             "results / job / execution, job-option and task-level tags, structured values with File subvalues), two executions "
             "per sqlite file (the second the same program or one sharing subtrees: cached replays), seeded completion schedules "
-            "on the real Scheduler; plus 6 fixed witness programs; non-trivial = >= 3 jobs in the file")
+            "on the real Scheduler; plus 7 fixed witness programs (one with a forced schedule: same-parent twins, first still pending); non-trivial = >= 3 jobs in the file")
     cfgd = None
     tags_dedupe = None
 
@@ -143,7 +191,7 @@ class Check(PropertyCheck):
         try:
             for name, specs in self.programs():
                 rng = random.Random(self.rng.random())
-                runs, dump, reg = one_db(specs, rng, self.work)
+                runs, dump, reg = one_db(specs, rng, self.work, kind=name)
                 bad = L.check_db(runs, dump, reg)
                 term, st = L.model_case(runs, dump)
                 self.cases.append({"kind": name, "specs": [repr(s) for s in specs], "bad": bad, "stats": st})
@@ -163,6 +211,7 @@ class Check(PropertyCheck):
                 self.sample({"specs": [repr(s)[:200] for s in specs], **st}, 3)
         finally:
             shutil.rmtree(self.work, ignore_errors=True)
+            drop_template()
         if self.cfgd is None:
             self.ob("correspondence", "model vs database (skipped: translator failed)", False, "no configuration")
             return
@@ -213,7 +262,7 @@ class Check(PropertyCheck):
             work = tempfile.mkdtemp(prefix="rv_c20r_")
             try:
                 for sd in range(12):
-                    runs, dump, reg = one_db(specs, random.Random(sd), work)
+                    runs, dump, reg = one_db(specs, random.Random(sd), work, kind=r.get("kind"))
                     bad = L.check_db(runs, dump, reg)
                     from harness.lib import load_known_findings
                     known = {k["key"] for k in load_known_findings() if k.get("property") == "C20"}
